@@ -17,6 +17,8 @@ def pipeline(prop, tier, fam):
     seed = vlib.seed()
     vlib.build_harness(fam.get("bins", ("conform",)))
     binary = fam.get("binary")
+    vlib.TRACE_ENV.clear()
+    vlib.TRACE_ENV.update(fam.get("trace_env", {}))
 
     states = transitions = 0
     model_info = []
